@@ -18,7 +18,7 @@ META = {
     "bounds": {"quick": "3 shapes (<=3 scenarios x <=2 steps, outline rows, background), every step and step hook writes unique markers to stdout, "
                         "stderr and logging; step outcomes over {pass, assert-fail, exception, pending, KeyboardInterrupt, skip-scenario}; the three "
                         "capture switches symbolic (all 8 combinations decided by the solver); a user handler on the root logger and a non-default root "
-                        "level set in before_all; one job with hook faults; Captured add/report kernel over symbolic texts",
+                        "level set in before_all, looked at from later before_scenario hooks and after the run; one job with hook faults; Captured add/report kernel over symbolic texts",
                "thorough": "5 shapes, logging_clear_handlers on/off, nested execute_steps"},
     "outside": ["bytes on a child process' real file descriptors (sentinel stream objects replace the real ones in-process)", "logging filters other than one mixed include/exclude filter"],
     "assumptions": ["sys.stdout/sys.stderr are replaced by sentinel StringIO objects before the run; identity is observed at every result event"],
